@@ -42,7 +42,7 @@ func init() {
 		Level: "exploration",
 		Rule: "E1 + depth-bounded E2: (of) every subset of the 11 boundary positions {0,1,62,63,64,65,127,128,129,191,192} × n in {absent,-5,0,1,63,64,65,128,129,193,300}: word count and exact bit set of Of, ToArray(Of(l)) = l, Of(ToArray(b)) = b up to trailing zero words, and Get/Get1 inside plus SafeGet/SafeGet1 at every probe in [-70, 64·words+70); " +
 			"(of, far) every subset of {0,63,64,4095,4096,4097,65535,65536} × 5 sizes with probes around every position and end; (ofmany) every sequence of ≤3 segments (positions ⊂ {0,1,63,64,65}, size in {0,1,63,64,65,130}; positions ≥ size included, so the shifted concatenation need not be ascending) whose shifted bits all fit into the word count the statement gives, against the set model and that word count; " +
-			"(builder) every sequence of ≤3 operations over the 216-operation alphabet (and every sequence of 4..R operations over a 10-operation sub-alphabet) {Extend(those 192 segments), Set(pos in {0,1,63,64,65,200}, value in 0..3)} executed on a real Builder from NewBuilder(0) and NewBuilder(256): set bits, Offset, capacity for every bit, and exact equality with the reference Of for Extend-only histories with ascending positions. A case is one call / one history; non-trivial when at least one bit is set.",
+			"(builder) every sequence of ≤3 operations over the 216-operation alphabet (and every sequence of 4..R operations over a 10-operation sub-alphabet) {Extend(those 192 segments), Set(pos in {0,1,63,64,65,200}, value in 0..3)} executed on a real Builder from NewBuilder(0) and NewBuilder(256), with a second Builder extended and set between the steps (objects must not share state): set bits, Offset, capacity for every bit, and exact equality with the reference Of for Extend-only histories with ascending positions. A case is one call / one history; non-trivial when at least one bit is set.",
 		Assumptions: []string{"positions beyond 300 and longer histories are not enumerated; non-ascending lists are outside Of's and OfMany's statement"},
 		Run:         c12Run,
 		Judge:       mc.JudgeOf(c12Judge),
@@ -339,8 +339,11 @@ func c12HistoryOK(prealloc int32, ops []c12Op) (ok bool) {
 	off, maxEnd, last := int32(0), int32(0), int32(-1)
 	extendOnly, asc := true, true
 	b := bitmap.NewBuilder(prealloc)
+	by := bitmap.NewBuilder(64) // bystander: a second Builder used between the steps must not matter
 	for i := range ops {
 		o := &ops[i]
+		by.Extend(c12ByPos, 67)
+		by.Set(int32(5+i), 1)
 		if o.Op == "extend" {
 			b.Extend(o.Pos, o.Size)
 			for _, p := range o.Pos {
@@ -395,6 +398,8 @@ func c12HistoryOK(prealloc int32, ops []c12Op) (ok bool) {
 	return true
 }
 
+var c12ByPos = []int32{0, 3, 66}
+
 // c12History runs ops on a real Builder next to the set model.
 func c12History(prealloc int32, ops []c12Op) (got, want string) {
 	var b *bitmap.Builder
@@ -409,7 +414,10 @@ func c12History(prealloc int32, ops []c12Op) (got, want string) {
 			}
 		}()
 		b = bitmap.NewBuilder(prealloc)
-		for _, o := range ops {
+		by := bitmap.NewBuilder(64)
+		for i, o := range ops {
+			by.Extend(c12ByPos, 67)
+			by.Set(int32(5+i), 1)
 			switch o.Op {
 			case "extend":
 				b.Extend(o.Pos, o.Size)
